@@ -44,12 +44,13 @@ theorem C10_decoded_lines_310 (b : List Nat) (n : Nat) (heven : b.length % 2 = 0
   decoded_lines_310 b n heven hbytes h255 hbc
 
 /-- **Decoded lines are CPython's lines — `co_lnotab` (3.7-3.9)** (stage 3, decoding direction, composed with
-    stages 1-2), **and the decoding loop terminates.**  For every lnotab byte string with even address deltas — any
+    stages 1-2), **and the decoding loop terminates.**  For every lnotab byte string whose address deltas are even once the 255-byte
+    continuation rows `(255, 0)` are merged with the row they continue (the rows themselves may be odd: 255) — any
     forward and backward line jumps (split over several rows or not), gaps beyond 255 bytes, zero-width rows; no assumption
     that CPython's assembler wrote it — `to_line_mapping` returns (its `while` loop ends within the model's fuel), and for
     every even offset below the code length the decoded mapping holds exactly the line `PyCode_Addr2Line` computes. -/
 theorem C10_decoded_lines_lnotab (b : List Nat) (n : Nat) (heven : b.length % 2 = 0) (hbytes : ∀ x ∈ b, x < 256)
-    (hbc : ∀ x ∈ bytesToItems b, x.bc % 2 = 0) :
+    (hbc : ∀ cs, collapse false (bytesToItems b) = some cs → ∀ c ∈ cs, c.bc % 2 = 0) :
     ∃ lm, toLineMapping false b n = .ok lm ∧
       ∀ o, o % 2 = 0 → o < n → assoc? o lm.lines = some (some (Spec.lineOfOld b o 0 0)) :=
   decoded_lines_old b n heven hbytes hbc
@@ -74,14 +75,19 @@ theorem C10_encoded_lines_lnotab (ls : List Int) (extra : List (Nat × List Int)
     the model runs out of fuel (outside the quantifier of C10: CPython's assembler only emits even addresses) -/
 example : toLineMapping false [1, 1] 4 = .error .fuel := by rfl
 
-/-- non-vacuity for `C10_decoded_lines_lnotab`: `(0,+127),(0,-127),(6,+1)` (the 3.8/3.9 compiler output of the repaired
-    defect followed by one more line) meets the hypotheses; CPython reads line +0 at offset 4 and +1 at offset 6 -/
-example : (∀ x ∈ bytesToItems [0, 127, 0, 129, 6, 1], x.bc % 2 = 0) ∧
-    Spec.lineOfOld [0, 127, 0, 129, 6, 1] 4 0 0 = 0 ∧ Spec.lineOfOld [0, 127, 0, 129, 6, 1] 6 0 0 = 1 := by
+/-- non-vacuity for `C10_decoded_lines_lnotab`: `(0,+127),(0,-127),(255,0),(45,+1)` (the 3.8/3.9 compiler output of the
+    repaired defect, then a line 300 bytes on: two odd rows, one even address) meets the hypotheses; CPython reads line +0
+    at offset 298 and +1 at offset 300 -/
+example : (∀ cs, collapse false (bytesToItems [0, 127, 0, 129, 255, 0, 45, 1]) = some cs → ∀ c ∈ cs, c.bc % 2 = 0) ∧
+    Spec.lineOfOld [0, 127, 0, 129, 255, 0, 45, 1] 298 0 0 = 0 ∧ Spec.lineOfOld [0, 127, 0, 129, 255, 0, 45, 1] 300 0 0 = 1 := by
   refine ⟨?_, by decide, by decide⟩
-  intro x hx
-  simp [bytesToItems, signed] at hx
-  rcases hx with rfl | rfl | rfl <;> simp
+  intro cs hcs
+  have : collapse false (bytesToItems [0, 127, 0, 129, 255, 0, 45, 1]) = some [⟨some 127, 0⟩, ⟨some (-127), 0⟩, ⟨some 1, 300⟩] := by decide
+  rw [this] at hcs
+  cases hcs
+  intro c hc
+  simp at hc
+  rcases hc with rfl | rfl | rfl <;> simp
 
 /-- non-vacuity for `C10_decoded_lines_310`: `(4, +1), (254, -128), (2, -128), (6, +3)` — a line, 256 bytes without
     line, a line — meets the hypotheses; offset 100 has no line, offset 260 has line 4 -/
